@@ -276,6 +276,12 @@ def r20_3(run):
     for n in cr:
         v = assign_to(n.ast, 'self.created')
         calls = [c for c in ast.walk(v) if isinstance(c, ast.Call) and callee_attr(c) in ('now', 'utcnow', 'today')]
+        # ... and as read: the delay is (expiry - now) to the microsecond; a rounded "now" (replace(microsecond=0), a truncation to
+        # seconds) arms every timer late by the fraction cut off, so the name outlives its expiry
+        if calls:
+            exact = any(v is c for c in calls)
+            run.ob('R20.3', up, v, 'the current time is used as read (not rounded)', exact, slot='now-exact',
+                   message='Addr.update takes "now" as %s: timers are armed for (expiry - rounded now), i.e. up to a second late' % src(v)[:60])
         for c in calls:
             utc = bool(callee_attr(c) == 'utcnow' or (callee_attr(c) == 'now' and (c.args or c.keywords) and 'utc' in src(c).lower()))
             run.ob('R20.3', up, c, 'the current time is taken in UTC', utc, slot='now-in-utc',
